@@ -79,7 +79,7 @@ theorem FrameS.anc {pr pr' : PA} (h : FrameS pr pr') (i j : Nat) : anc pr'.nodes
 
 /-! ## walking up the fork-choice parents -/
 
-theorem ancF_succ (ns : List Node) (i f j : Nat) :
+theorem ancF_unfold (ns : List Node) (i f j : Nat) :
     ancF ns i (f + 1) j = (i == j || (match fpar ns j with | some p => ancF ns i f p | none => false)) := rfl
 
 theorem ancF_self (ns : List Node) (i f : Nat) : ancF ns i f i = true := by
@@ -134,7 +134,7 @@ theorem ancF_stable (ns : List Node) (hlt : ∀ j p, fpar ns j = some p → p < 
     | none => simp
     | some p => exact absurd (hlt 0 p hp) (by omega)
   | succ f ih =>
-    rw [ancF_succ ns i (f + 1), ancF_succ ns i f]
+    rw [ancF_unfold ns i (f + 1), ancF_unfold ns i f]
     cases hp : fpar ns j with
     | none => rfl
     | some p =>
